@@ -19,7 +19,8 @@ demo = os.path.join(outdir, f"{mn}_demo_test.go")
 wt = f"/tmp/seedwt-{os.getpid()}"
 sh(["git", "-C", "/repo", "worktree", "remove", "--force", wt])
 rc, o = sh(["git", "-C", "/repo", "worktree", "add", "-q", "--detach", wt, "HEAD"]); assert rc == 0, o
-res = dict(property=prop, id=f"{prop}-{mn}", summary=meta.get("summary"), needs=meta.get("needs"), ran={})
+TAG = os.environ.get("SEED_TAG", "")
+res = dict(property=prop, id=f"{prop}-{TAG}{mn}", summary=meta.get("summary"), needs=meta.get("needs"), ran={})
 def apply(d):
     rc, o = sh(["git", "apply", diff], cwd=d)
     if rc != 0:
@@ -75,7 +76,7 @@ if ok:
         sh(["git", "-C", "/repo", "reset", "--hard", "-q", "HEAD"]); sh("find /repo -name '*.orig' -o -name '*.rej' | xargs -r rm -f")
 res["checks"] = checks
 res["detected_by"] = [i for i, c in checks.items() if c["exit"] == 1 and c["violation"]]
-d = f"/verif/seeded/{prop}-{mn}"
+d = f"/verif/seeded/{prop}-{TAG}{mn}"
 os.makedirs(d, exist_ok=True)
 shutil.copy(diff, os.path.join(d, "patch.diff")); shutil.copy(demo, os.path.join(d, "demo_test.go"))
 json.dump(dict(meta, **res), open(os.path.join(d, "meta.json"), "w"), indent=1)
